@@ -66,6 +66,8 @@ type c16case struct {
 	DelayMs int  `json:"exit_delay_ms"` // 0 = flag absent (default 300 ms)
 	Chunks  int  `json:"chunks"`
 	Late    bool `json:"inject_late_reply_per_chunk"`
+	// the late reply arrives 130 ms before the delay ends instead of at 40 % of it
+	LateNearEnd bool `json:"late_reply_130ms_before_the_end,omitempty"`
 	// every probe is also answered 1.5 x delay late, i.e. after its chunk's socket has been closed:
 	// nothing is expected to be reported for those, but the scan must go on (no crash, all chunks probed)
 	AfterClose bool `json:"answer_every_probe_after_its_chunk_ended"`
@@ -125,6 +127,20 @@ func scenC16(run *vlab.Run, sx, tmp string) {
 		}
 		if c.Chunks == 1 && i%4 == 3 {
 			c.KeepReplying, c.Late = true, false
+		}
+		if c.Late && c.DelayMs >= 500 && i/4%2 == 1 {
+			c.LateNearEnd = true
+		}
+		if c.Late && i%10 == 4 { // make sure every quick run has some
+			c.DelayMs, c.LateNearEnd = 600, true
+			for k, x := range c.Extra {
+				if x == "--exit-delay" {
+					c.Extra[k+1] = "600ms"
+				}
+			}
+			if c.DelayMs > 0 && !strings.Contains(strings.Join(c.Extra, " "), "--exit-delay") {
+				c.Extra = append(c.Extra, "--exit-delay", "600ms")
+			}
 		}
 		cases = append(cases, c)
 	}
@@ -205,10 +221,20 @@ func scenC16(run *vlab.Run, sx, tmp string) {
 						if c.Kind == "tcp" && len(c.Cmd) > 1 && c.Cmd[1] != "syn" {
 							rec = recTCP(ipS(a), port, "sa") // every tcp scan but the SYN scan prints the flags of the reply
 						}
+						ats := []time.Duration{delay * 4 / 10}
+						if c.LateNearEnd {
+							// well before the end, but spread over the last quarter second: a ring that hands frames to the
+							// reader only every few hundred milliseconds loses the ones after its last tick
+							ats = []time.Duration{delay - 240*time.Millisecond, delay - 200*time.Millisecond, delay - 160*time.Millisecond, delay - 120*time.Millisecond}
+						}
 						mu.Lock()
-						lateRecs = append(lateRecs, rec)
+						for range ats {
+							lateRecs = append(lateRecs, rec)
+						}
 						mu.Unlock()
-						time.AfterFunc(delay*4/10, func() { cr.Inject(d, fr) })
+						for _, at := range ats {
+							time.AfterFunc(at, func() { cr.Inject(d, fr) })
+						}
 					}
 				}}
 			res := RunCase(sx, spec)
